@@ -49,8 +49,8 @@ struct Inj {
     src: u8,
     /// explicit source address (overrides `src`): e.g. the peer the request was really sent to
     from: Option<SocketAddrV4>,
-    /// the id is written as its two low bytes only
-    short: bool,
+    /// how many (low) bytes of the id are written: 4, or 2 / 3 / 1
+    width: u8,
 }
 
 thread_local! {
@@ -145,7 +145,7 @@ fn adversary(src: u8, eps: &[SocketAddrV4]) -> SocketAddrV4 {
 
 fn injection_bytes(inj: &Inj, target: &Id20) -> Vec<u8> {
     let t4 = inj.tid.to_be_bytes();
-    let t: &[u8] = if inj.short { &t4[2..] } else { &t4[..] };
+    let t: &[u8] = &t4[4 - (inj.width.clamp(1, 4) as usize)..];
     let vote = SocketAddrV4::new(Ipv4Addr::new(6, 6, 6, 6), 6666);
     let evil_id = [0xEEu8; 20];
     let forged_node = ([0xDDu8; 20], SocketAddrV4::new(Ipv4Addr::new(66, 6, 6, 7), 7777));
@@ -359,7 +359,7 @@ fn build_menu(base: &RunOut, tier: Tier, eps: &[SocketAddrV4]) -> Vec<Inj> {
                         continue;
                     }
                 }
-                m.push(Inj { kind, tid, src, from: None, short: false });
+                m.push(Inj { kind, tid, src, from: None, width: 4 });
             }
         }
     }
@@ -375,13 +375,15 @@ fn congruent_menu(lbase: &RunOut, tier: Tier) -> Vec<Inj> {
     let mut cmenu: Vec<Inj> = vec![];
     for (tid, dest) in &lbase.tid_dest {
         // the addressed peer sends a request of its own carrying exactly the outstanding id
-        cmenu.push(Inj { kind: 5, tid: *tid, src: 4, from: Some(*dest), short: false });
+        cmenu.push(Inj { kind: 5, tid: *tid, src: 4, from: Some(*dest), width: 4 });
         for &kind in &kinds {
-            cmenu.push(Inj { kind, tid: tid.wrapping_add(65536), src: 4, from: Some(*dest), short: false });
-            cmenu.push(Inj { kind, tid: *tid, src: 4, from: Some(*dest), short: true });
+            cmenu.push(Inj { kind, tid: tid.wrapping_add(65536), src: 4, from: Some(*dest), width: 4 });
+            cmenu.push(Inj { kind, tid: *tid, src: 4, from: Some(*dest), width: 2 });
+            // (a 3-byte `t` is no transaction id at all: ids are 2 or 4 bytes)
+            cmenu.push(Inj { kind, tid: *tid, src: 4, from: Some(*dest), width: 3 });
             if !tier.is_quick() {
-                cmenu.push(Inj { kind, tid: tid.wrapping_sub(65536), src: 4, from: Some(*dest), short: false });
-                cmenu.push(Inj { kind, tid: tid.wrapping_add(1 << 31), src: 4, from: Some(*dest), short: false });
+                cmenu.push(Inj { kind, tid: tid.wrapping_sub(65536), src: 4, from: Some(*dest), width: 4 });
+                cmenu.push(Inj { kind, tid: tid.wrapping_add(1 << 31), src: 4, from: Some(*dest), width: 4 });
             }
         }
     }
@@ -751,7 +753,7 @@ fn run(tier: Tier, shard: usize, nshards: usize, _seed: u64) -> Partial {
                 if r.obs != lbase.obs {
                     let choices = ch.choices();
                     let inj = choices.iter().find(|c| **c > 0).map(|c| cmenu[*c as usize - 1].clone());
-                    let how = inj.as_ref().map(|i| if i.kind == 5 { "request-with-the-same-id" } else if i.short { "two-low-bytes" } else { "plus-multiple-of-65536" }).unwrap_or("?");
+                    let how = inj.as_ref().map(|i| if i.kind == 5 { "request-with-the-same-id" } else if i.width == 2 { "two-low-bytes" } else if i.width == 3 { "three-low-bytes" } else if i.width == 1 { "one-low-byte" } else { "plus-multiple-of-65536" }).unwrap_or("?");
                     out.violation(
                         format!("injection-has-effect/{}/congruent-id-from-the-addressed-peer/{how}", lbase.obs.class(&r.obs)),
                         format!("node whose transaction ids are above 65536 (counter started at {start_tid}); the addressed peer sends {:?} before its genuine reply: {}", inj, lbase.obs.diff(&r.obs)),
@@ -762,6 +764,39 @@ fn run(tier: Tier, shard: usize, nshards: usize, _seed: u64) -> Partial {
             (ch, true)
         });
         START_TID.with(|c| c.set(None));
+    }
+    // The same from a YOUNG node (ids below 256): the addressed peer answers with the id written
+    // as one byte or as three - neither is a transaction id (they are 2 or 4 bytes long).
+    {
+        let (_, lbase) = scenario(Chooser::default_run(), &[], false, false);
+        let mut cmenu: Vec<Inj> = vec![];
+        for (tid, dest) in &lbase.tid_dest {
+            for kind in [1u8, 4] {
+                for width in [1u8, 3] {
+                    cmenu.push(Inj { kind, tid: *tid, src: 4, from: Some(*dest), width });
+                }
+            }
+        }
+        let mut ex5 = Explorer::new(1, (shard, nshards));
+        ex5.explore(&mut |chooser, count| {
+            let (ch, r) = scenario(chooser, &cmenu, false, false);
+            if count {
+                out.add("executions", 1);
+                out.add("odd_width_id_injections", 1);
+                out.add("transitions", r.steps);
+                if r.obs != lbase.obs {
+                    let choices = ch.choices();
+                    let inj = choices.iter().find(|c| **c > 0).map(|c| cmenu[*c as usize - 1].clone());
+                    let how = inj.as_ref().map(|i| if i.width == 1 { "one-low-byte" } else { "three-low-bytes" }).unwrap_or("?");
+                    out.violation(
+                        format!("injection-has-effect/{}/odd-width-id-from-the-addressed-peer/{how}", lbase.obs.class(&r.obs)),
+                        format!("young node (transaction ids below 256); the addressed peer sends {:?} before its genuine reply: {}", inj, lbase.obs.diff(&r.obs)),
+                        json!({"part": "odd-width", "tier": tier.name(), "choices": choices}),
+                    );
+                }
+            }
+            (ch, true)
+        });
     }
 
     if shard == 1 % nshards {
@@ -912,6 +947,21 @@ fn replay(v: &Value) -> Result<Option<Violation>, String> {
             START_TID.with(|c| c.set(None));
             if r.obs != lbase.obs {
                 out.violation("injection-has-effect/congruent-id-from-the-addressed-peer", lbase.obs.diff(&r.obs), v.clone());
+            }
+        }
+        "odd-width" => {
+            let (_, lbase) = scenario(Chooser::default_run(), &[], false, false);
+            let mut cmenu: Vec<Inj> = vec![];
+            for (tid, dest) in &lbase.tid_dest {
+                for kind in [1u8, 4] {
+                    for width in [1u8, 3] {
+                        cmenu.push(Inj { kind, tid: *tid, src: 4, from: Some(*dest), width });
+                    }
+                }
+            }
+            let (_, r) = scenario(Chooser::new(choices.clone()), &cmenu, false, false);
+            if r.obs != lbase.obs {
+                out.violation("injection-has-effect/odd-width-id-from-the-addressed-peer", lbase.obs.diff(&r.obs), v.clone());
             }
         }
         "faults" => {
